@@ -141,7 +141,7 @@ pub fn run(opts: &Opts, pools: &Pools, rep: &mut Report) {
     install_slab_monitor();
     let props = m_match::Props::parse("C10");
     // the long lived matcher whose history must not matter
-    let mut veteran = Matcher::default();
+    let mut veteran = m_match::initial_matcher(opts.seed, opts.shard, 0);
     let range: Box<dyn Iterator<Item = u64>> = match opts.replay {
         Some(i) => Box::new(0..i + 1), // history matters: replay the whole prefix
         None => Box::new(0..opts.cases),
@@ -152,6 +152,9 @@ pub fn run(opts: &Opts, pools: &Pools, rep: &mut Report) {
             break;
         }
         let mut rng = Rng::new(mix(&[opts.seed, opts.shard, idx, 10]));
+        if idx % 1024 == 1023 {
+            veteran = m_match::initial_matcher(opts.seed, opts.shard, idx / 1024 + 1);
+        }
         // alternate large and small inputs so that stale slab content differs maximally
         let case = match idx % 16 {
             0 => m_match::gen_big(&mut rng, pools, false),
